@@ -14,18 +14,89 @@ from contracts import ormtemplates as T
 
 PROPERTY = "C02"
 NEEDS_MODULES = ["odata_query.ast", "odata_query.visitor", "odata_query.typing", "odata_query.exceptions", "odata_query.django.django_q",
-                 "odata_query.django.utils"]
+                 "odata_query.django.utils", "odata_query.django.django_q_ext"]
 KNOWN = []
 BACKENDS = ["django"]
 
 
+NOT_EQUAL = "odata_query.django.django_q_ext.NotEqual"
+
+
 def families(facts):
-    return S.families(facts, BACKENDS, T.DJANGO_CALLS)
+    return S.families(facts, BACKENDS, T.DJANGO_CALLS)[:-1] + ["lookup[NotEqual.as_sql]", "canary"]
+
+
+def lookup_not_equal(facts, tier):
+    """The custom `<>` lookup compiles itself (repository code inside Django's compiler): its SQL text is
+    `<lhs> <> <rhs>` and its parameter list is the left operand's parameters followed by the right operand's -- the
+    order of their placeholders in the text.  process_lhs / process_rhs are Django's (uninterpreted, each returns a
+    text and a parameter sequence)."""
+    import time
+    import z3
+    from contracts import sqlcommon as Q
+    from vc.propkit import explore, judge, src_of
+    from vc.symexec import Atom, FuncRef, Obj, SStr, Sym, ExtVal
+    t0 = time.time()
+    if NOT_EQUAL not in facts.classes:
+        return [{"name": "C02:NotEqual:import", "clause": "unsupported", "status": "undecided", "seconds": 0.0,
+                 "reason": "odata_query.django.django_q_ext.NotEqual was not extracted"}]
+    c = Q.build(facts)
+    E, U, PV = c["E"], c["U"], c["PV"]
+    m = facts.classes[NOT_EQUAL]["members"]["as_sql"]
+    lt, rt = z3.String("lhs_sql"), z3.String("rhs_sql")
+    lp, rp = z3.Const("lhs_params", PV), z3.Const("rhs_params", PV)
+
+    def side(text, params):
+        def k(E_, path, fref, args, kwargs):
+            return (SStr([Atom(text, ("term",))]), Sym(params))
+        return k
+    saved = dict(E.contracts)
+    for base in ("django.db.models.lookups.Lookup", NOT_EQUAL):
+        E.contracts[base + ".process_lhs"] = side(lt, lp)
+        E.contracts[base + ".process_rhs"] = side(rt, rp)
+    out = []
+    try:
+        for shape, tag, items in (("tuple", "TupleV", PV.titems), ("list", "ListV", PV.items)):
+            def runner(path, tag=tag):
+                path.assume(U.is_tag(tag, lp))
+                path.assume(U.is_tag(tag, rp))
+                self_obj = Obj(NOT_EQUAL, {})
+                return E.run_function(path, FuncRef(m, defcls=NOT_EQUAL), [self_obj, ExtVal("<compiler>"), ExtVal("<connection>")], self_val=self_obj)
+            rs = explore(E, runner)
+            name = f"C02:{m['qualname']}[{shape} params]:post.value"
+            for i, (path, oc) in enumerate(rs):
+                if oc[0] != "return":
+                    out.append({"name": name, "clause": "unsupported" if oc[0] == "unsupported" else "safety.raise",
+                                "status": "undecided" if oc[0] == "unsupported" else "refuted", "seconds": 0.0, "reason": str(oc)[:200],
+                                "source": src_of(m), "path": i, "solver_output": str(oc)[:200]})
+                    continue
+                v = oc[1]
+                if not (isinstance(v, tuple) and len(v) == 2):
+                    out.append({"name": name, "clause": "post.value", "status": "refuted", "seconds": 0.0, "source": src_of(m), "path": i,
+                                "reason": "as_sql does not return a (sql, params) pair", "solver_output": repr(v)[:200]})
+                    continue
+                text, params = v
+                try:
+                    tt = text.term() if isinstance(text, SStr) else z3.StringVal(text)
+                    ps = E.symbolic_seq(path, params)
+                except Exception as ex:
+                    out.append({"name": name, "clause": "unsupported", "status": "undecided", "seconds": 0.0, "reason": str(ex)[:200],
+                                "source": src_of(m), "path": i})
+                    continue
+                goal = z3.And(tt == z3.Concat(lt, z3.StringVal(" <> "), rt), ps == z3.Concat(items(lp), items(rp)))
+                out.append(judge(E, name, "post.value", path.pc + path.insts, goal, src_of(m), S.TIMEOUT[tier],
+                                 {"lhs_params": lp, "rhs_params": rp}, extra={"what": "Compare", "orm": "django"}, path_idx=i))
+    finally:
+        E.contracts.clear()
+        E.contracts.update(saved)
+    return out
 
 
 def run_family(facts, fam, tier):
     if fam == "canary":
         return S.canary(PROPERTY, T.DJANGO_CALLS)
+    if fam == "lookup[NotEqual.as_sql]":
+        return lookup_not_equal(facts, tier)
     if fam.startswith("bounded.semantics["):
         return S.bounded(PROPERTY, fam[len("bounded.semantics["):-1], tier, KNOWN)
     return S.run_layer1(facts, fam, tier, PROPERTY, KNOWN, T.DJANGO_CALLS, T.DJANGO_OPS, top_q=True)
